@@ -22,7 +22,7 @@ EXPLANATION = ("Real Trace.parse_traces and Trace.load_traces (parse_trace_file,
                "constant m = Trace.min_ts for all ranks, min ts = 0; end = ts + dur on every row; fractional: ts = "
                "ceil, end = floor(ts+dur), inside the original span, containment/disjointness preserved pairwise. "
                "Non-trivial path = two events with different start times (fractional: a genuinely fractional start).")
-ASSUMPTIONS = ["each rank has >= 1 complete event", "integer variant: 0 <= ts,dur < 2^52; fractional: reals in the same range",
+ASSUMPTIONS = ["each rank has >= 1 complete event", "0 <= ts <= 2^52 (epoch offset), 0 <= dur <= 2^40; fractional variant: reals in the same ranges",
                "JSON backend; ijson back-ends not installed; JSON reading stubbed"]
 STUBS = ["hta.common.trace_parser.parse_trace_dict", "Trace._validate_trace_files", "plotly", "logging"]
 KINDS = "ORKTMFI"
@@ -57,9 +57,9 @@ def build(sk):
         ev, inf = [], []
         for i, ch in enumerate(w):
             ts, dur = f"$r{r}e{i}_ts", f"$r{r}e{i}_dur"
-            if frac:
-                vars_[ts[1:]] = ["real", 0, TG.T_MAX]
-                vars_[dur[1:]] = ["real", 0, TG.T_MAX]
+            # raw file timestamps are epoch based: up to 2^52 (exact in float64); durations up to 2^40
+            vars_[ts[1:]] = ["real" if frac else "int", 0, TG.T_EPOCH_MAX]
+            vars_[dur[1:]] = ["real" if frac else "int", 0, TG.T_MAX]
             pid, tid = 100 + r, 200 + i
             if ch == "O":
                 e = TG.op("aten::mm", ts, dur, tid=tid, pid=pid)
